@@ -41,7 +41,10 @@ def run(res, f, tier):
     evaluator_fn = A["evaluator"][0]
     reaches_evaluator = set(d for d, b in f.bodies.items() if not b.get("parent") and b["kind"] in ("Fn", "AssocFn")
                             and d not in (ev_value, ev_fn) and evaluator_fn in evalsum.reachable_local(f, [d])
-                            and (b.get("impl") or {}).get("self_s") != "ruleset::RuleSet")     # RuleSet's own helpers are part of the loop: inlined
+                            and (b.get("impl") or {}).get("self_s") != "ruleset::RuleSet"      # RuleSet's own helpers are part of the loop: inlined
+                            # it works on one expression; whatever drives the loop over the rules (a helper object, a
+                            # per-rule wrapper taking the Rule) is read through
+                            and any(evalsum.EXPR in f.ty_s(b["locals"][i]["ty"]) for i in range(1, b["arg_count"] + 1)))
     PER_RULE = set(short_callee(d) for d in reaches_evaluator)
     outcome = f.adts.get("ruleset::Outcome")
     rule_adt = f.adts.get("ruleset::rule::Rule")
